@@ -1,0 +1,156 @@
+//! verification hooks (cargo feature `verif`, off by default)
+//!
+//! process-global observation state used by an external harness:
+//! an in-flight work counter, a trace of task state writes / task creations /
+//! message generations in one total order, a virtual clock offset and
+//! optional seeded schedule perturbation. nothing in here changes engine
+//! behaviour unless the harness switches perturbation or the clock offset on.
+use std::sync::Mutex;
+use std::sync::atomic::{AtomicI64, AtomicU64, Ordering};
+
+static INFLIGHT: AtomicI64 = AtomicI64::new(0);
+static SEQ: AtomicU64 = AtomicU64::new(0);
+static CLOCK_OFFSET_MS: AtomicI64 = AtomicI64::new(0);
+// 0 = off, otherwise the xorshift state
+static CHAOS: AtomicU64 = AtomicU64::new(0);
+static CHAOS_MAX_YIELDS: AtomicU64 = AtomicU64::new(0);
+// upper bound in microseconds of a pause point sleep, 0 = off
+static PAUSE_MAX_US: AtomicU64 = AtomicU64::new(0);
+static TRACE: Mutex<Vec<Event>> = Mutex::new(Vec::new());
+static STATE_LOCK: Mutex<()> = Mutex::new(());
+
+#[derive(Debug, Clone)]
+pub enum Event {
+    /// a write of a task state (`via` = "set" for a transition, "load" for a reconstruction from the store)
+    State {
+        seq: u64,
+        pid: String,
+        tid: String,
+        nid: String,
+        kind: String,
+        old: String,
+        new: String,
+        via: &'static str,
+    },
+    /// a task instance is created
+    Create {
+        seq: u64,
+        pid: String,
+        tid: String,
+        nid: String,
+        kind: String,
+        prev: Option<String>,
+        level: usize,
+    },
+    /// a client message / process event is generated (before its dispatch is spawned)
+    Emit {
+        seq: u64,
+        what: &'static str,
+        id: String,
+        pid: String,
+        tid: String,
+        state: String,
+    },
+}
+
+pub fn inflight_inc(_w: &'static str) {
+    INFLIGHT.fetch_add(1, Ordering::SeqCst);
+}
+
+pub fn inflight_dec(_w: &'static str) {
+    INFLIGHT.fetch_sub(1, Ordering::SeqCst);
+}
+
+pub fn inflight() -> i64 {
+    INFLIGHT.load(Ordering::SeqCst)
+}
+
+pub fn next_seq() -> u64 {
+    SEQ.fetch_add(1, Ordering::SeqCst)
+}
+
+pub fn clock_offset_ms() -> i64 {
+    CLOCK_OFFSET_MS.load(Ordering::SeqCst)
+}
+
+pub fn advance_clock_ms(d: i64) {
+    CLOCK_OFFSET_MS.fetch_add(d, Ordering::SeqCst);
+}
+
+pub fn reset() {
+    INFLIGHT.store(0, Ordering::SeqCst);
+    SEQ.store(0, Ordering::SeqCst);
+    CLOCK_OFFSET_MS.store(0, Ordering::SeqCst);
+    CHAOS.store(0, Ordering::SeqCst);
+    CHAOS_MAX_YIELDS.store(0, Ordering::SeqCst);
+    PAUSE_MAX_US.store(0, Ordering::SeqCst);
+    TRACE.lock().unwrap_or_else(|e| e.into_inner()).clear();
+}
+
+pub fn set_chaos(seed: u64, max_yields: u64) {
+    CHAOS.store(seed, Ordering::SeqCst);
+    CHAOS_MAX_YIELDS.store(max_yields, Ordering::SeqCst);
+}
+
+pub fn set_pause(max_us: u64) {
+    PAUSE_MAX_US.store(max_us, Ordering::SeqCst);
+}
+
+pub fn take_trace() -> Vec<Event> {
+    std::mem::take(&mut *TRACE.lock().unwrap_or_else(|e| e.into_inner()))
+}
+
+pub fn trace_len() -> usize {
+    TRACE.lock().unwrap_or_else(|e| e.into_inner()).len()
+}
+
+/// held across a task state write so that the logged (old, new) pair and the
+/// global order are atomic with the state they shadow
+pub fn state_guard() -> std::sync::MutexGuard<'static, ()> {
+    STATE_LOCK.lock().unwrap_or_else(|e| e.into_inner())
+}
+
+pub fn push(e: Event) {
+    TRACE.lock().unwrap_or_else(|e| e.into_inner()).push(e);
+}
+
+fn chaos_next(modulo: u64) -> Option<u64> {
+    if modulo == 0 {
+        return None;
+    }
+    let mut x = CHAOS.load(Ordering::SeqCst);
+    if x == 0 {
+        return None;
+    }
+    x ^= x << 13;
+    x ^= x >> 7;
+    x ^= x << 17;
+    CHAOS.store(x, Ordering::SeqCst);
+    Some(x % modulo)
+}
+
+/// seeded perturbation of a spawned piece of work: yields 0..=max times before it runs
+pub async fn chaos_yield(_w: &'static str) {
+    let max = CHAOS_MAX_YIELDS.load(Ordering::SeqCst);
+    if max == 0 {
+        return;
+    }
+    if let Some(n) = chaos_next(max + 1) {
+        for _ in 0..n {
+            tokio::task::yield_now().await;
+        }
+    }
+}
+
+/// seeded pause between two critical sections of code that runs on parallel OS threads
+pub fn pause(_w: &'static str) {
+    let max = PAUSE_MAX_US.load(Ordering::SeqCst);
+    if max == 0 {
+        return;
+    }
+    if let Some(n) = chaos_next(max + 1) {
+        if n > 0 {
+            std::thread::sleep(std::time::Duration::from_micros(n));
+        }
+    }
+}
